@@ -449,6 +449,20 @@ impl RE {
     }
 }
 
+/// Read-only accessors for external runtime monitors (feature `verif-hooks`)
+#[cfg(feature = "verif-hooks")]
+impl RE {
+    /// abstract syntax tree of this term
+    pub fn verif_expr(&self) -> &BaseRegLan {
+        &self.expr
+    }
+
+    /// unique id of this term
+    pub fn verif_id(&self) -> usize {
+        self.id
+    }
+}
+
 /// Iterator to go through all sub-terms of a RegLan
 /// We can't implement this in RE because of lifetime issues
 #[derive(Debug)]
@@ -1402,6 +1416,10 @@ impl ReManager {
         // we skip the subsumption check when x == r
         // this works since there are no duplicates in a
         fn is_subsumed(r: RegLan, a: &[RegLan]) -> bool {
+            #[cfg(feature = "verif-hooks")]
+            if let Some(&x) = a.iter().find(|&&x| x != r && sub_language(r, x)) {
+                crate::verif_hooks::log_subsumption(r, x);
+            }
             // a.iter().any(|&x| x != r && is_included(r, x))
             a.iter().any(|&x| x != r && sub_language(r, x))
         }
@@ -2318,6 +2336,28 @@ impl ReManager {
     /// ```
     pub fn try_compile(&mut self, e: RegLan, max_states: usize) -> Option<Automaton> {
         self.compile_with_bound(e, max_states)
+    }
+}
+
+/// Read-only accessors for external runtime monitors (feature `verif-hooks`)
+#[cfg(feature = "verif-hooks")]
+impl ReManager {
+    /// all terms of this manager, indexed by id
+    pub fn verif_terms(&self) -> Vec<RegLan> {
+        self.id2re.clone()
+    }
+
+    /// all terms held by the hash-consing store (in no particular order)
+    pub fn verif_store_terms(&self) -> Vec<RegLan> {
+        self.store.iter().copied().collect()
+    }
+
+    /// content of the derivative cache: (term, class id, cached derivative)
+    pub fn verif_deriv_cache(&self) -> Vec<(RegLan, ClassId, RegLan)> {
+        self.deriv_cache
+            .iter()
+            .map(|(k, &v)| (k.0, k.1, v))
+            .collect()
     }
 }
 
